@@ -59,6 +59,9 @@ def cases(ctx):
                                        8 * shape[d], -8 * shape[d], 16 * shape[d], 4 * (2 * shape[d] - 2), -8 * (shape[d] - 1),
                                        4 * (shape[d] - 1), 12 * shape[d] + 2]) for d in range(nd)]
             c["prefilter"] = False if order > 1 else rng.random() < 0.5
+            if rng.random() < 0.3:
+                c["shift4"] = [4 * rng.choice([0, 1, 2, 3, shape[d], shape[d] + 1]) * rng.choice([1, 1, -1]) for d in range(nd)]
+                c["sform"] = rng.choice(["uint8", "uint16", "uint64", "int8", "list-uint8", "pyint"])
         elif kind == "zoom":
             c["out_shape"] = [rng.choice([s, s, 2 * s - 1, 2 * s, max(1, s - 1), rng.randint(1, 12)]) for s in shape]
             c["prefilter"] = False if order > 1 else rng.random() < 0.5
@@ -153,9 +156,22 @@ def run_case(ctx, case):
     if kind == "shift":
         sh = [Fraction(s, 4) for s in case["shift4"]]
         sarr = np.array([float(s) for s in sh])
-        skeep = sarr.copy()
+        # the shift may be given in any numeric form: whole non-negative shifts also as unsigned / small signed numpy integers,
+        # as a list of numpy scalars or as Python ints (negating it may not wrap around)
+        form = case.get("sform", "float")
+        if form != "float" and all(s.denominator == 1 for s in sh):
+            ints = [int(s) for s in sh]
+            if form in ("uint8", "uint16", "uint64") and all(0 <= v < 200 for v in ints):
+                sarr = np.array(ints, dtype=form)
+            elif form == "int8" and all(-100 <= v <= 100 for v in ints):
+                sarr = np.array(ints, dtype=np.int8)
+            elif form == "list-uint8" and all(0 <= v < 200 for v in ints):
+                sarr = [np.uint8(v) for v in ints]
+            elif form == "pyint":
+                sarr = ints
+        skeep = np.array(sarr).copy()
         got = I.shift(a, sarr, order=order, mode=mode, prefilter=case["prefilter"])
-        if not np.array_equal(a, keep) or not np.array_equal(sarr, skeep):
+        if not np.array_equal(a, keep) or not np.array_equal(np.array(sarr), skeep):
             return Result(False, True, {"why": "shift modified an argument (image or shift vector)"})
         if got.shape != a0.shape:
             return Result(False, True, {"why": "shape"})
